@@ -1,24 +1,81 @@
 (** C10 -- RFC 3339 output is conformant and input acceptance is exact (theorems only).
-    Strings are byte lists; [utf8_valid] is well-formedness (what a Rust [&str] guarantees);
-    model functions are the line-by-line transcriptions in Model/Scan.v and Model/Rfc3339.v
-    ([Val]/[Panic] = returns / traps). *)
-From Coq Require Import ZArith List Bool.
-From V Require Import Base.Int Base.IO Base.Utf8 Model.Scan Model.C10 Spec.Rfc3339
-  Proofs.Utf8 Proofs.Scan Proofs.C10.
+
+    Strings are byte lists; [utf8_valid] is well-formedness (what a Rust [&str] guarantees).
+    Model functions are the line-by-line transcriptions of chrono in Model/Scan.v and
+    Model/Rfc3339.v on top of Model/Date.v, Model/Time.v, Model/DateTime.v ([Val] = returns,
+    [Panic] = traps; [POk]/[PErr] = Ok/Err of a ParseResult).
+    The grammar is Spec/Rfc3339.v, written from RFC 3339 section 5.6 and the crate documentation:
+    [render f] generates the string of fields [f]; [G3339 f s := wf f = true /\ s = render f];
+    [recognise]/[accepts] is the executable recogniser with the semantic validity [valid] and the
+    denotation [denote] (UTC reading (year, ordinal, second of day, nanosecond field), offset).
+    [tuple_of a] reads the same five numbers off a model DateTime<FixedOffset>.
+    A value of the case protocol [value y o secs frac off] is decoded by [dec_dtz] exactly as the
+    harness decodes it (NaiveDate::from_yo_opt etc.). *)
+From Coq Require Import ZArith List Bool String.
+From V Require Import Base.Int Base.IO Base.Utf8 Model.Scan Model.DateTime Model.C10 Spec.Gregorian Spec.Rfc3339
+  Proofs.Utf8 Proofs.Scan Proofs.C10 Proofs.C10Writer Proofs.C10Main.
 Import ListNotations.
 Open Scope Z_scope.
 
+(** ** Reader: exact acceptance over ALL well-formed UTF-8 strings, never a trap.
+    The result is [Ok] of exactly the denoted value when the string is in the grammar and its
+    fields are valid, and an error value otherwise. *)
+Theorem C10_accept_exact : forall s, utf8_valid s = true ->
+  exists r, parse_from_rfc3339 s = Val r /\
+    match accepts s with
+    | Some v => exists a, r = POk a /\ tuple_of a = v
+    | None => exists e, r = PErr e
+    end.
+Proof. exact accept_exact. Qed.
+Print Assumptions C10_accept_exact.
+
+Theorem C10_parse_never_traps : forall s, utf8_valid s = true -> exists r, parse_from_rfc3339 s = Val r.
+Proof. exact parse_never_traps. Qed.
+Print Assumptions C10_parse_never_traps.
+
+(* the scanning phase alone: slice safety (every [&s[i..]] is on a char boundary) *)
+Theorem C10_scan_never_traps : forall s, utf8_valid s = true -> parse_rfc3339 parsed_new s = Val (scan_pure s).
+Proof. exact parse_rfc3339_ok. Qed.
+Print Assumptions C10_scan_never_traps.
+
+(* the recogniser accepts what the grammar generates *)
+Theorem C10_recognise_render : forall f, wf f = true -> recognise (render f) = Some f.
+Proof. exact recognise_render. Qed.
+Print Assumptions C10_recognise_render.
+
+(** ** Writer: for every date-time with wall-clock year 0..9999 and a whole-minute offset, each of the
+    five precisions and both use_z: the output is the string of the grammar (strict form) whose
+    fields are the wall-clock fields of the value ([fields_of]: sub-seconds truncated to the printed
+    precision), 'Z' exactly when requested and the offset is zero, the offset exactly; it denotes
+    the value truncated to the printed precision. *)
+Theorem C10_writer_in_grammar : forall y o secs frac off sf uz a,
+  dec_dtz (value y o secs frac off) = Some a -> writer_domain y o secs frac off sf ->
+  let f := fields_of y o secs frac off sf uz in
+  to_rfc3339_opts a sf uz = Val (render f) /\ G3339 f (render f) /\ valid f = true /\ strict f = true /\
+  (match f_zone f with Zulu _ => uz = true /\ off = 0 | Numeric _ _ _ => ~ (uz = true /\ off = 0) end) /\
+  zone_offset (f_zone f) = off /\
+  denote f = (y, o, secs, truncated_frac sf frac, off).
+Proof. exact writer_in_grammar. Qed.
+Print Assumptions C10_writer_in_grammar.
+
+(** ** Round trip: parse (write v) = Ok v, to the printed precision *)
+Theorem C10_roundtrip : forall y o secs frac off sf uz a,
+  dec_dtz (value y o secs frac off) = Some a -> writer_domain y o secs frac off sf ->
+  exists t a', to_rfc3339_opts a sf uz = Val t /\ parse_from_rfc3339 t = Val (POk a') /\
+               tuple_of a' = (y, o, secs, truncated_frac sf frac, off).
+Proof. exact roundtrip. Qed.
+Print Assumptions C10_roundtrip.
+
+(** ** Reusable scanner lemmas (shared with C09, C11, C13, C14, C15) *)
 (* slicing a well-formed string after a prefix that ends at a scalar-value boundary never traps *)
 Theorem C10_slice_safe : forall a b, starts_ok b = true -> str_from (a ++ b) (blen a) = Val b.
 Proof. exact str_from_app. Qed.
 Print Assumptions C10_slice_safe.
-
 (* scan::number never traps on well-formed UTF-8 and equals its slicing-free reading *)
 Theorem C10_number_total : forall s min max, utf8_valid s = true -> 0 <= min <= max ->
   number s min max = Val (number_pure s min max).
 Proof. exact number_ok. Qed.
 Print Assumptions C10_number_total.
-
 (* scan::number on printed digits returns the rest and the value *)
 Theorem C10_number_on_digits : forall ds rest min max,
   forallb is_ascii_digit ds = true -> utf8_valid rest = true ->
@@ -27,7 +84,61 @@ Theorem C10_number_on_digits : forall ds rest min max,
   number (ds ++ rest) min max = Val (POk (rest, digits_value ds 0)).
 Proof. exact number_on_digits. Qed.
 Print Assumptions C10_number_on_digits.
-
+(* scan::nanosecond: at least one digit, first nine scaled to nanoseconds, the rest skipped *)
+Theorem C10_nanosecond_total : forall s, utf8_valid s = true -> nanosecond s = Val (nanosecond_pure s).
+Proof. exact nanosecond_ok. Qed.
+Print Assumptions C10_nanosecond_total.
+(* scan::timezone_offset with mandatory colon, Z/z and U+2212 allowed *)
+Theorem C10_timezone_offset_total : forall s, utf8_valid s = true ->
+  timezone_offset s (fun s => char s 58) true false true = Val (tz_colon_pure s).
+Proof. exact timezone_offset_colon_ok. Qed.
+Print Assumptions C10_timezone_offset_total.
+(* OffsetFormat { Minutes, Colon, Pad::Zero }.format on whole-minute offsets *)
+Theorem C10_offset_format : forall w off use_z, -86400 < off < 86400 -> off mod 60 = 0 ->
+  offset_format_format (mk_of 1 1 use_z 1) w off = Val (Some (w ++ render_zone (zone_of off use_z))).
+Proof. exact offset_format_rfc3339. Qed.
+Print Assumptions C10_offset_format.
 Theorem C10_write_hundreds : forall w n, 0 <= n < 100 -> write_hundreds w n = Some (w ++ two n).
 Proof. exact write_hundreds_spec. Qed.
 Print Assumptions C10_write_hundreds.
+
+(** ** Exact acceptance in relational form: Ok v <-> exists fields, G3339 fields s /\ valid /\ v = denote *)
+Theorem C10_accept_exact_rel : forall s, utf8_valid s = true ->
+  (forall a, parse_from_rfc3339 s = Val (POk a) ->
+     exists f, G3339 f s /\ valid f = true /\ tuple_of a = denote f) /\
+  (forall f, G3339 f s -> valid f = true ->
+     exists a, parse_from_rfc3339 s = Val (POk a) /\ tuple_of a = denote f) /\
+  ((forall f, G3339 f s -> valid f = false) -> exists e, parse_from_rfc3339 s = Val (PErr e)).
+Proof. exact accept_exact_rel. Qed.
+Print Assumptions C10_accept_exact_rel.
+
+(* the executable recogniser decides the generator relation *)
+Theorem C10_recognise_iff : forall s f, recognise s = Some f <-> G3339 f s.
+Proof. exact recognise_iff. Qed.
+Print Assumptions C10_recognise_iff.
+
+(* scan::timezone_offset (mandatory colon, Z allowed) inverts OffsetFormat::format *)
+Theorem C10_timezone_offset_inverts_format : forall w off use_z rest,
+  -86400 < off < 86400 -> off mod 60 = 0 -> utf8_valid rest = true ->
+  exists t, offset_format_format (mk_of 1 1 use_z 1) w off = Val (Some (w ++ t)) /\
+            timezone_offset (t ++ rest) (fun s => char s 58) true false true = Val (POk (rest, off)).
+Proof. exact timezone_offset_inverts_format. Qed.
+Print Assumptions C10_timezone_offset_inverts_format.
+
+(* DateTime::to_rfc3339 (AutoSi, no Z) *)
+Theorem C10_to_rfc3339 : forall y o secs frac off a,
+  dec_dtz (value y o secs frac off) = Some a -> writer_domain y o secs frac off 4 ->
+  to_rfc3339 a = Val (render (fields_of y o secs frac off 4 false)).
+Proof. exact to_rfc3339_main. Qed.
+Print Assumptions C10_to_rfc3339.
+
+(* hypotheses are inhabited *)
+Example C10_roundtrip_example :
+  exists a, dec_dtz (value 1996 354 2397 500000000 (-28800)) = Some a /\ writer_domain 1996 354 2397 500000000 (-28800) 4 /\
+  render (fields_of 1996 354 2397 500000000 (-28800) 4 true) = B"1996-12-18T16:39:57.500-08:00".
+Proof. exact roundtrip_example. Qed.
+Print Assumptions C10_roundtrip_example.
+Example C10_accept_example : accepts B"1990-12-31T23:59:60Z" = Some (1990, 365, 86399, 1000000000, 0)
+  /\ accepts B"2015-02-18T23:16:09+24:00" = None /\ utf8_valid B"1990-12-31T23:59:60Z" = true.
+Proof. exact accept_example. Qed.
+Print Assumptions C10_accept_example.
